@@ -119,6 +119,12 @@ func renderNode(w io.Writer, node *html.Node, indent int) error {
 	return renderNodeWithContext(ctx, w, node, indent)
 }
 
+// isRawTextElement reports whether the HTML parser reads the content of the element as raw text:
+// <script> and <style> in the HTML namespace (inside <svg> or <math> they are ordinary elements).
+func isRawTextElement(n *html.Node) bool {
+	return n.Namespace == "" && (n.Data == "script" || n.Data == "style")
+}
+
 // renderPreformatted writes a node inside <pre> / <textarea>: no indentation, no added line breaks.
 func renderPreformatted(ctx VueContext, w io.Writer, node *html.Node) error {
 	switch node.Type {
@@ -144,6 +150,11 @@ func renderPreformatted(ctx VueContext, w io.Writer, node *html.Node) error {
 			_, _ = w.Write([]byte(content))
 		} else {
 			for c := node.FirstChild; c != nil; c = c.NextSibling {
+				if c.Type == html.TextNode && isRawTextElement(node) {
+					// script / style text is raw text also inside <pre>
+					_, _ = w.Write([]byte(c.Data))
+					continue
+				}
 				if err := renderPreformatted(ctx, w, c); err != nil {
 					return err
 				}
@@ -281,7 +292,7 @@ func renderNodeWithContext(ctx VueContext, w io.Writer, node *html.Node, indent 
 		} else if childCount == 1 && firstChild.Type == html.TextNode {
 			_, _ = w.Write([]byte(spaces + "<" + tagName + renderAttrs(node.Attr) + ">"))
 			// Skip HTML escaping inside script and style tags
-			if tagName == "script" || tagName == "style" {
+			if isRawTextElement(node) {
 				_, _ = w.Write([]byte(firstChild.Data))
 			} else if shouldEscapeTextNode(firstChild.Data) {
 				_, _ = w.Write([]byte(html.EscapeString(firstChild.Data)))
@@ -291,7 +302,13 @@ func renderNodeWithContext(ctx VueContext, w io.Writer, node *html.Node, indent 
 			_, _ = w.Write([]byte("</" + tagName + ">\n"))
 		} else {
 			_, _ = w.Write([]byte(spaces + "<" + tagName + renderAttrs(node.Attr) + ">\n"))
-			ctx.PushTag(tagName)
+			if node.Namespace != "" {
+				// <style> and <script> inside <svg> / <math> are ordinary elements for the HTML
+				// parser, not raw text: their text is escaped like any other
+				ctx.PushTag(node.Namespace + ":" + tagName)
+			} else {
+				ctx.PushTag(tagName)
+			}
 			childIndent := indent + 2
 			for c := firstChild; c != nil; c = c.NextSibling {
 				if err := renderNodeWithContext(ctx, w, c, childIndent); err != nil {
